@@ -34,6 +34,7 @@ def check_C03(tier_arg=None):
     n_builder = res.agg.stats.get('cases', 0)
     run_generated(class_configs(tier, seed), 'harness.judge_class.judge', {'prop': 'C03', 'facets': FACETS},
                   seeds=seeds, mode='all', batch=200, result=res)
+    CC.heap_stage('C03', tier, seeds, res, n_quick=5)      # the same object captured / grouped / refused several times
     try:
         from . import checks_meta as MM
         MM.run_ctor_space(tier, seed, seeds, res)
